@@ -258,6 +258,24 @@ def token_ok(t):
                         or (t[0] in "\"'" and len(t) >= 2 and t[-1] == t[0] and t[0] not in t[1:-1] and "\n" not in t)) \
         and t not in fb.RESERVED
 
+def gen_quoted_ws(rng):
+    """a quoted literal whose content has white space that a tokenizer could be tempted to normalise: runs of blanks,
+    tabs and other in-line white space, blanks directly inside the quotes, `#` and the other quote character"""
+    q = rng.choice("\"'")
+    other = "'" if q == '"' else '"'
+    gaps = [" ", "  ", "   ", "\t", " \t", "\t\t", "\x0b", "\x0c", " \x1f ", "\xa0", "  \xa0"]
+    words = ["two", "blanks", "a", "#", "x" + other, "1", "to", "of", ".p.q", "\\"]
+    parts = [rng.choice(gaps) if rng.random() < 0.4 else ""]
+    for i in range(rng.randrange(1, 4)):
+        if i:
+            parts.append(rng.choice(gaps))
+        parts.append(rng.choice(words))
+    parts.append(rng.choice(gaps) if rng.random() < 0.4 else "")
+    if rng.random() < 0.1:
+        parts = [rng.choice(gaps)]            # nothing but white space
+    return q + "".join(parts) + q
+
+
 CONTEXTS = ["init", "put", "set", "inc", "do-with", "do-per", "do-cum", "goal", "tolerance", "bid", "timeout"]
 HEAD = "house lit\ninit .lit.n with 10\nframer f be active first f0\nframe f0\n"
 SCRIPTS = {
@@ -373,11 +391,19 @@ def expect_context(ctx, direct, goal, num, text=""):
         if isinstance(v, complex):
             # not a real number (Convert2RealNum, fix D08): read as an indirect period if it is a path (`j`, `infj`)
             return "indirect" if text.strip().isalpha() and text.isascii() else "ERR ParseError"
+        if isinstance(v, int):
+            try:
+                float(v)
+            except OverflowError:
+                return "ERR ParseError"                   # too large for a float (Convert2FloatNum, fix D65b), and not a path
         return canon_value(max(0.0, v))
     if ctx == "timeout":
         if num == "ERR":
             return "ERR ValueError"
-        return canon_value(float(abs(val(num))))
+        try:
+            return canon_value(float(abs(val(num))))
+        except OverflowError:
+            return "ERR ValueError"                       # too large for a float (Convert2FloatNum, fix D65b)
     return None
 
 
@@ -433,6 +459,11 @@ class CHECK(core.Check):
     def generate(self, rng, n, tier):
         n_rt = n // 5
         n_ctx = 150 if tier == "quick" else 2500
+        n_qws = 60 if tier == "quick" else 900
+        for i in range(n_qws):
+            t = gen_quoted_ws(rng)
+            if token_ok(t):
+                yield self.case(t, "context-quoted-white-space", ctx=True)
         for i in range(n_rt):
             kind = rng.choice(["int", "float", "float", "complex", "bool", "none", "str", "point", "point"])
             text, val, ks = write_value(rng, kind)
